@@ -27,6 +27,7 @@ PROPS = {   # subject prefix -> (property, what failed)
  "fix: J1939-22 a new broadcast announcement replaces": ("C06", "J1939-22 BAM: after a lost end-of-message status the next broadcast of the same originator (same session number) started before the receiver's T1 time-out was dropped together with the stale session: the new transfer is not delivered"),
  "fix: an address-claimed frame that does not carry 8 bytes": ("C07", "a truncated address-claimed frame (0..7 bytes, zeros) for the address of an operational CA reads as a low NAME: the CA gives its address up (cannot-claim for a single-address CA) - a malformed frame leaves the stack unusable"),
  "fix: a DM14 frame that does not carry 8 bytes": ("C07", "a truncated DM14 (0..7 bytes) whose refusal path raises IndexError leaves the memory-access server without listener and busy: no later well-formed request is answered"),
+ "fix: the cyclic DM1 skips a cycle while its CA holds no address": ("C16", "Dm1.start_send while the CA is still claiming (veto window) or before it is started, cycle shorter than the time to the address: the first tick raises in the job thread and ends it; no DM1 is ever sent"),
  "fix: J1939-22 do not apply the destination filter to PDU2": ("C05", "J1939-22: PDU2 (broadcast) single frames were dropped unless the group extension equalled a local address"),
  "fix: timer and subscriber lists": ("C12", "remove_timer/unsubscribe removed while iterating (one of two adjacent registrations survived); an expired one-shot made the job thread skip the next timer (served up to 5 s late); a callback that removed itself and returned False killed the job thread with ValueError"),
  "fix: a periodic timer whose deadline equals": ("C12", "a periodic timer whose deadline is exactly equal to the time stamp of the job thread's pass (a faster timer keeps the thread passing) was served, not advanced, and called a second time in the next pass: two calls in one period"),
